@@ -51,7 +51,8 @@ def run(chk):
                 delays = {}
                 for h in range(1, nh + 1):
                     if rnd.random() < 0.5:
-                        delays[str(h)] = [rnd.choice([0, 0, 0.01, 0.03]), rnd.choice([0, 0, 0.02, 0.05])]
+                        delays[str(h)] = [rnd.choice([0, 0, 0.01, 0.03]), rnd.choice([0, 0, 0.02, 0.05]),
+                                          rnd.choice([0, 0, 0, 0.04, 0.08])]
                 sched = dict(policy=policy, seed=rnd.randint(0, 10 ** 6), delays=delays)
                 jobs.append(dict(base, name="multi%d_%d" % (pi, k), validate=False, plan=pi, cores=cores, sched=sched,
                                  extra=["--streams", "5", "--multi", str(cores), "--schedule", json.dumps(sched)]))
